@@ -29,7 +29,9 @@ def op_strategy(kind, none_p=True, only=None):
     sd = side(kind, none_p)
     # [tail, head] - may overlap, may both be empty; one in six is a loop (tail == head)
     edge = st.one_of(st.tuples(sd, sd).map(list), st.tuples(sd, sd).map(list), st.tuples(sd, sd).map(list), st.tuples(sd, sd).map(list), st.tuples(sd, sd).map(list),
-                     sd.filter(lambda s: None not in s).map(lambda s: [list(s), list(s)]))
+                     sd.filter(lambda s: None not in s).map(lambda s: [list(s), list(s)]),
+                     n.map(lambda v: [[v], [v]]), n.map(lambda v: [[v], [v]]),  # a one-node loop
+                     sd.filter(lambda s: None not in s and len(s) > 0).map(lambda s: [list(s), []]))  # an empty head
     ct = st.sampled_from(["list", "tuple", "set", "frozenset", "iter"])
     outer = st.sampled_from(["list", "tuple", "gen"])
     pairct = st.sampled_from(["list", "tuple"])
@@ -74,7 +76,7 @@ def op_strategy(kind, none_p=True, only=None):
         (5, "add_node_to_edge", st.tuples(st.just("add_node_to_edge"), e_or_none, n_or_none, direction).map(list)),
         (3, "remove_edge", st.tuples(st.just("remove_edge"), ex).map(list)),
         (4, "remove_edges_from", st.tuples(st.just("remove_edges_from"), nets.eid_removal_list).map(list)),
-        (5, "remove_node_from_edge", st.tuples(st.just("remove_node_from_edge"), ex, nm, direction, b).map(list)),
+        (8, "remove_node_from_edge", st.tuples(st.just("remove_node_from_edge"), ex, nm, direction, b).map(list)),
         (1, "set_net_attr", st.tuples(st.just("set_net_attr"), st.sampled_from(["name", "tag"]), nets.attr_value).map(list)),
         (0.5, "clear", st.tuples(st.just("clear"), b).map(list)),
         (1, "cleanup", st.tuples(st.just("cleanup"), b, b).map(list)),
